@@ -19,7 +19,13 @@ register(PropSpec(
     engines=[EngineSpec("exec", gen, mon, mon_exec.tags_c04, quick_n=250, thorough_n=6000, mask=mon_exec.mask_unmodelled,
                         hyp_alarm={"listedfinal=1": ("C06/final-record-listed-when-the-timeout-step-runs",
                                                      "the model (which agrees with the node on this history) reaches a block whose timeout step finds a SUCCESS / FAILURE / "
-                                                     "ROLLBACK record on the list of that height: the hypothesis of C04_block_final_stays fails and the step overwrites the final status")})],
+                                                     "ROLLBACK record on the list of that height: the hypothesis of C04_block_final_stays fails and the step overwrites the final status"),
+                                   "globals=0": ("C06/timeout-walk-abandoned-for-a-group-without-record",
+                                                 "the model (which agrees with the node on this history) reaches a block whose timeout list names a group that has no record: "
+                                                 "the hypothesis GlobalsPresent of C06_block_fires_due fails, the walk of the timeout step is abandoned and the ids behind it do not time out"),
+                                   "wf=0": ("C06/stored-timeout-list-ill-formed",
+                                            "the model (which agrees with the node on this history) ends a block with a stored timeout list that holds the emptied-list marker next to "
+                                            "ids: the well-formedness part of Due fails (getTimeoutList would read such a list as empty or drop entries)")})],
     rule="exec engine: requests with timeouts 0/1/2/3/4/10/huge/negative, receipts before/at/after H+T, several requests sharing a deadline, "
          "restarts; a quarter of the histories carry one-to-many groups (children begun in different blocks, begin-failed and failed groups, group deadlines): a group is listed as timed out only in its deadline block and only if it has neither failed nor finished; per block the TimeoutCounter and per id the status are compared with the protocol; non-trivial = a timeout fired or a status edge was seen",
 ))
